@@ -86,6 +86,8 @@ type FSPlan struct {
 type FS struct {
 	Root string
 	Plan FSPlan
+	// InBubble: the run executes inside a synctest bubble.
+	InBubble bool
 	// Sched, when set, makes every tracked op a scheduling point.
 	Sched *Sched
 
@@ -293,6 +295,7 @@ func (fs *FS) Yield(tag string) bool {
 	return false
 }
 func (fs *FS) LoopTick(site string)  {}
+func (fs *FS) Durable() bool         { return fs.InBubble }
 func (fs *FS) Finalizer(site string) {
 	fs.mu.Lock()
 	fs.Finalizers++
